@@ -1,7 +1,7 @@
 SPECIFICATION Spec
 CONSTANTS
   NPaths = 3
-  Contents = {"Alias", "Enum", "DiagOff", "Undef", "ClsDoc", "Mod"}
+  Contents = {"Alias", "DiagOff", "Undef", "ClsDoc", "ReqB"}
   Ops = {"update", "unset", "remove", "reindex"}
   MaxSteps = 3
   EditDist = 3
